@@ -16,8 +16,8 @@ git apply "$M/patch.diff" || { res "PATCH-DOES-NOT-APPLY"; exit 1; }
 $CXXC -std=c++17 -O1 $FL -I"$WT/include" "$M/demo.cpp" -o /tmp/demo_mut_$$ $LIBS 2>/tmp/demo_err_$$ || { res "DEMO-COMPILE-FAIL(mutated)"; git checkout -q -- include; exit 1; }
 timeout 60 /tmp/demo_mut_$$ >/dev/null 2>&1; RC_MUT=$?
 [ -d _b ] || cmake -G Ninja -B _b -DCMAKE_BUILD_TYPE=RelWithDebInfo -DCMAKE_CXX_FLAGS=-Wno-error >/dev/null 2>&1
-cmake --build _b -j16 >/tmp/build_$$.log 2>&1; RC_BUILD=$?
-PASSED=$(OMPI_ALLOW_RUN_AS_ROOT=1 OMPI_ALLOW_RUN_AS_ROOT_CONFIRM=1 ctest --test-dir _b -j8 2>&1 | grep -o "[0-9]*% tests passed, [0-9]* tests failed out of [0-9]*")
+cmake --build _b -j${MSIM_BUILD_JOBS:-16} >/tmp/build_$$.log 2>&1; RC_BUILD=$?
+PASSED=$(OMPI_ALLOW_RUN_AS_ROOT=1 OMPI_ALLOW_RUN_AS_ROOT_CONFIRM=1 ctest --test-dir _b -j${MSIM_CTEST_JOBS:-8} 2>&1 | grep -o "[0-9]*% tests passed, [0-9]* tests failed out of [0-9]*")
 git checkout -q -- include
 rm -f /tmp/demo_clean_$$ /tmp/demo_mut_$$ /tmp/demo_err_$$ /tmp/build_$$.log
 res "demo_clean_rc=$RC_CLEAN demo_mutated_rc=$RC_MUT build_rc=$RC_BUILD tests='$PASSED' flags='$FL'"
